@@ -62,6 +62,7 @@ import Pandora.Proofs.C11Exec
 import Pandora.Proofs.C11Own
 import Pandora.Proofs.C11Closure
 import Pandora.Proofs.C11Ammo
+import Pandora.Proofs.C11Index
 import Pandora.Bridge.C11Locks
 import Pandora.Gen.Locks
 import Pandora.Spec.C11
@@ -514,6 +515,13 @@ example : Pandora.Gen.Locks.ammoFlows.length ≥ 3 ∧ Pandora.Gen.Locks.ammoFlo
 provider, of a middleware or of a decoded ammo, the objects every instance's `Acquire` uses -/
 theorem C11_acquire_writes_own : Pandora.Gen.Locks.ammoWrites.all Pandora.Spec.C11.writeOk = true := by decide
 
+/-- round 4: the table covers the grpc/json and the scenario providers' `Acquire` / `Release` too; a `SetID` on the
+scenario definition the channel delivers (instead of on the clone just made) is a write through a shared receiver -/
+example : Pandora.Gen.Locks.ammoFlowFuncs.contains "components/providers/scenario.Provider.Acquire" = true ∧
+    Pandora.Gen.Locks.ammoFlowFuncs.contains "components/providers/grpc.Provider.Acquire" = true ∧
+    Pandora.Gen.Locks.ammoWrites.contains ("components/guns/http_scenario.Scenario.SetID", "own-recv", "recv.ID", "assign") = true ∧
+    Pandora.Spec.C11.writeOk ("components/guns/http_scenario.Scenario.SetID", "recv", "recv.ID", "assign") = false := by decide
+
 example : Pandora.Gen.Locks.ammoWrites.length ≥ 3 ∧
     Pandora.Spec.C11.writeOk ("components/providers/http/middleware/headerdate.Middleware.UpdateRequest", "recv", "recv.last", "assign") = false ∧
     Pandora.Spec.C11.flowOk ("components/providers/http/decoders/ammo.Ammo.BuildRequest", "ptr", "return", "0", "recv.built") = false := by decide
@@ -665,5 +673,158 @@ theorem C11_shared_write_counterexample :
   refine ⟨by simp [WF, stepOk], ?_, by decide⟩
   intro h
   exact not_hb_two 0 1 5 true false 7 0 (by decide) 0 1 (h 0 1 _ _ (by decide) rfl rfl (by simp [Conflict]))
+
+/-! ### round 4: the index arithmetic behind the shared counters
+
+`rows[next]` of a variable source and the cursor of the shared client pool turn a counter that ALL instances increment
+into a slice index; a bad index is a runtime fault in every instance that comes by. The bodies of `lib/mp.calcIndex`,
+`(*NextIterator).Next` and `(*clientpool.Pool).Next` are regenerated from the source; the theorems are stated on the
+regenerated bodies (via `Bridge/C11Locks.lean`). -/
+
+/-- **C11_next_index_partial**: for every number of uses below 2^63 and every positive number of rows, use number `k`
+(0, 1, 2, … in the order in which the instances pass the iterator's mutex) of `rows[next]` yields row `k mod length`: always
+inside the slice, and the rows are handed out in turn whatever `strconv.Atoi` made of the string "next". -/
+theorem C11_next_index_partial (k : Nat) (len a rv : Int) (e : Bool)
+    (hk : (k : Int) < 9223372036854775808) (hl : 0 < len) :
+    Pandora.Gen.Locks.calcIndexBody "next" a e len (Pandora.Gen.Locks.iterNextBody (k != 0) k) rv = some ((k : Int) % len) ∧
+    0 ≤ (k : Int) % len ∧ (k : Int) % len < len := by
+  refine ⟨?_, Int.emod_nonneg _ (by omega), Int.emod_lt_of_pos _ hl⟩
+  rw [Pandora.Bridge.C11Locks.calcIndexBody_eq, Pandora.Bridge.C11Locks.iterNextBody_eq]
+  have hkind : idxKindOf "next" a e = .next := by simp [idxKindOf]
+  rw [hkind]
+  have hv : iterNext (k != 0) k = (k : Int) := by
+    by_cases h0 : k = 0
+    · subst h0; simp [iterNext]
+    · have : (k != 0) = true := by simp [h0]
+      rw [this]
+      simp only [iterNext, if_true]
+      exact ctrAsInt_small _ (by omega) hk
+  rw [hv]
+  simp only [calcIndexM]
+  rw [if_neg (by omega)]
+  congr 1
+  split
+  · exact tmod_of_nonneg _ _ (by omega)
+  · exact (Int.emod_eq_of_lt (by omega) (by omega)).symm
+
+/-- non-vacuity: three rows, uses 0‥4 → rows 0 1 2 0 1; and the use number 2^31 (where a 32-bit counter turns negative) -/
+example : (List.range 5).map (fun (k : Nat) => Pandora.Gen.Locks.calcIndexBody "next" 0 true 3 (Pandora.Gen.Locks.iterNextBody (k != 0) (k : Int)) 0)
+    = [some 0, some 1, some 2, some 0, some 1] := by decide
+
+example : Pandora.Gen.Locks.calcIndexBody "next" 0 true 7 (Pandora.Gen.Locks.iterNextBody true 2147483648) 0 = some 2 := by decide
+
+/-- the same claim for every value a 64-bit counter can take -/
+def C11_next_index_statement : Prop :=
+  ∀ (k : Nat) (len : Int), (k : Int) < 18446744073709551616 → 0 < len →
+    ∃ i, Pandora.Gen.Locks.calcIndexBody "next" 0 true len (Pandora.Gen.Locks.iterNextBody (k != 0) k) 0 = some i ∧ 0 ≤ i ∧ i < len
+
+/-- **C11_next_index_counterexample**: … is false. After 2^63 uses of one segment `int(add)` is negative, `calcIndex`
+reduces only an index that is `≥ length`, and `rows[-9223372036854775808]` panics in whichever instance comes by. (2^63 uses
+are out of reach — 290 000 years at a million uses per second —, so this is recorded, not reported; with a 32-bit counter
+the same happens after 2^31 uses: six hours at 100 000 per second.) -/
+theorem C11_next_index_counterexample : ¬ C11_next_index_statement ∧
+    Pandora.Gen.Locks.calcIndexBody "next" 0 true 3 (Pandora.Gen.Locks.iterNextBody true 9223372036854775808) 0 = some (-9223372036854775808) := by
+  have h : Pandora.Gen.Locks.calcIndexBody "next" 0 true 3 (Pandora.Gen.Locks.iterNextBody true 9223372036854775808) 0 = some (-9223372036854775808) := by
+    decide
+  refine ⟨?_, h⟩
+  intro hst
+  obtain ⟨i, hi, h0, _⟩ := hst 9223372036854775808 3 (by decide) (by decide)
+  have h' : Pandora.Gen.Locks.calcIndexBody "next" 0 true 3 (Pandora.Gen.Locks.iterNextBody ((9223372036854775808 : Nat) != 0) ((9223372036854775808 : Nat) : Int)) 0 = some (-9223372036854775808) := by
+    decide
+  rw [h'] at hi
+  have := Option.some.inj hi
+  omega
+
+/-- **C11_next_rows_distinct**: two uses of `rows[next]` that are fewer than `length` uses apart get different rows: with at
+least as many rows as there are uses in flight no two instances work on the same row (isolation of the data the
+instances take from a shared source). -/
+theorem C11_next_rows_distinct (k₁ k₂ : Nat) (len : Int) (h12 : k₁ < k₂) (hd : (k₂ : Int) < k₁ + len)
+    (hk : (k₂ : Int) < 9223372036854775808) :
+    Pandora.Gen.Locks.calcIndexBody "next" 0 true len (Pandora.Gen.Locks.iterNextBody (k₁ != 0) k₁) 0 ≠
+    Pandora.Gen.Locks.calcIndexBody "next" 0 true len (Pandora.Gen.Locks.iterNextBody (k₂ != 0) k₂) 0 := by
+  have hl : 0 < len := by omega
+  rw [(C11_next_index_partial k₁ len 0 0 true (by omega) hl).1, (C11_next_index_partial k₂ len 0 0 true hk hl).1]
+  intro heq
+  have heq' := Option.some.inj heq
+  have hz : ((k₂ : Int) - k₁) % len = 0 := Int.emod_eq_emod_iff_emod_sub_eq_zero.mp heq'.symm
+  obtain ⟨c, hc⟩ := Int.dvd_of_emod_eq_zero hz
+  rcases Int.lt_trichotomy c 0 with hneg | hzero | hpos
+  · have : len * c ≤ len * (-1) := Int.mul_le_mul_of_nonneg_left (by omega) (by omega)
+    omega
+  · subst hzero; omega
+  · have : len * 1 ≤ len * c := Int.mul_le_mul_of_nonneg_left (by omega) (by omega)
+    omega
+
+example : Pandora.Gen.Locks.calcIndexBody "next" 0 true 4 (Pandora.Gen.Locks.iterNextBody true 5) 0 = some 1 ∧
+    Pandora.Gen.Locks.calcIndexBody "next" 0 true 4 (Pandora.Gen.Locks.iterNextBody true 8) 0 = some 0 := by decide
+
+/-- **C11_calc_index_in_bounds**: whatever the index string (a number of either sign, `next`, `rand`, `last`, anything
+else), `calcIndex` returns an error or an index inside the slice — given a non-negative value of the `[next]` counter and a
+`[rand]` value in `[0, length)` (what `rand.Intn(length)` yields). -/
+theorem C11_calc_index_in_bounds (s : String) (a : Int) (e : Bool) (len nv rv i : Int)
+    (hnv : 0 ≤ nv) (hrv : 0 ≤ rv ∧ rv < len)
+    (h : Pandora.Gen.Locks.calcIndexBody s a e len nv rv = some i) : 0 ≤ i ∧ i < len := by
+  rw [Pandora.Bridge.C11Locks.calcIndexBody_eq] at h
+  generalize idxKindOf s a e = k at h
+  cases k with
+  | bad => simp [calcIndexM] at h
+  | num j =>
+    simp only [calcIndexM] at h
+    split at h
+    · cases h
+    · rename_i hlen
+      have hb := tmod_bounds j len (by omega)
+      split at h
+      · cases h; omega
+      · cases h
+        split <;> omega
+  | last =>
+    simp only [calcIndexM] at h
+    split at h
+    · cases h
+    · cases h; omega
+  | rand =>
+    simp only [calcIndexM] at h
+    split at h
+    · cases h
+    · cases h; exact hrv
+  | next =>
+    simp only [calcIndexM] at h
+    split at h
+    · cases h
+    · rename_i hlen
+      have hb := tmod_bounds nv len (by omega)
+      cases h
+      split <;> omega
+
+/-- non-vacuity: `rows[-7]`, `rows[12]`, `rows[last]` over five rows; `rows[x]` is an error -/
+example : Pandora.Gen.Locks.calcIndexBody "-7" (-7) false 5 0 0 = some 3 ∧ Pandora.Gen.Locks.calcIndexBody "12" 12 false 5 0 0 = some 2 ∧
+    Pandora.Gen.Locks.calcIndexBody "last" 0 true 5 0 0 = some 4 ∧ Pandora.Gen.Locks.calcIndexBody "x" 0 true 5 0 0 = none := by decide
+
+/-- **C11_pool_index_partial**: the client an instance is bound to: after `c` increments of the shared cursor (`0 ≤ c < 2^63`)
+`Pool.Next` returns the client number `c mod n` — inside the pool, and the clients are handed out in turn. -/
+theorem C11_pool_index_partial (n c : Int) (hn : 0 < n) (h0 : 0 ≤ c) (hc : c < 9223372036854775808) :
+    Pandora.Gen.Locks.poolNextBody n c = some (c % n) ∧ 0 ≤ c % n ∧ c % n < n := by
+  refine ⟨?_, Int.emod_nonneg _ (by omega), Int.emod_lt_of_pos _ hn⟩
+  rw [Pandora.Bridge.C11Locks.poolNextBody_eq]
+  simp only [poolNext]
+  rw [if_neg (by omega), ctrAsInt_small c h0 hc, tmod_of_nonneg _ _ h0]
+
+example : (List.range 5).map (fun (c : Nat) => Pandora.Gen.Locks.poolNextBody 3 ((c : Int) + 1)) = [some 1, some 2, some 0, some 1, some 2] := by decide
+
+def C11_pool_index_statement : Prop :=
+  ∀ (n c : Int), 0 < n → 0 ≤ c → c < 18446744073709551616 → ∃ i, Pandora.Gen.Locks.poolNextBody n c = some i ∧ 0 ≤ i ∧ i < n
+
+/-- **C11_pool_index_counterexample**: with three clients the 2^63-th `Next` indexes the pool at -2 (`Next` is called once per
+instance, at `Bind`: out of reach; recorded, not reported). -/
+theorem C11_pool_index_counterexample : ¬ C11_pool_index_statement ∧
+    Pandora.Gen.Locks.poolNextBody 3 9223372036854775808 = some (-2) := by
+  have h : Pandora.Gen.Locks.poolNextBody 3 9223372036854775808 = some (-2) := by decide
+  refine ⟨?_, h⟩
+  intro hst
+  obtain ⟨i, hi, h0, _⟩ := hst 3 9223372036854775808 (by decide) (by decide) (by decide)
+  rw [h] at hi
+  have := Option.some.inj hi
+  omega
 
 end Pandora.Props.C11
